@@ -17,8 +17,19 @@ import glob
 muts = []
 for _f in sorted(glob.glob(os.path.join(VERIF, 'tools', 'mutations.d', '*.json'))):
     muts += json.load(open(_f))
-if subprocess.run(['git', '-C', REPO, 'status', '--porcelain'], capture_output=True, text=True).stdout.strip():
-    sys.exit('refusing: /repo has uncommitted changes')
+# Mutations are applied in a scratch worktree of /repo's HEAD (never in /repo itself), so several
+# runners and ordinary checks can run at the same time.
+SCRATCH = '/tmp/verif-mut-%d' % os.getpid()
+subprocess.run(['git', '-C', REPO, 'worktree', 'add', '--detach', '-f', SCRATCH, 'HEAD'], check=True, capture_output=True)
+import atexit, shutil
+def _cleanup():
+    subprocess.run(['git', '-C', '/repo', 'worktree', 'remove', '--force', SCRATCH], capture_output=True)
+    shutil.rmtree(SCRATCH, ignore_errors=True)
+    subprocess.run(['git', '-C', '/repo', 'worktree', 'prune'], capture_output=True)
+    import hashlib
+    shutil.rmtree(os.path.join(VERIF, 'work', 'harness-' + hashlib.sha1(SCRATCH.encode()).hexdigest()[:10]), ignore_errors=True)
+atexit.register(_cleanup)
+REPO = SCRATCH
 res = []
 for m in muts:
     if a.prop and m['prop'] != a.prop: continue
@@ -39,7 +50,7 @@ for m in muts:
                                env=env, capture_output=True, text=True)
             base = 'unit-tests:%s' % ('pass' if r.returncode == 0 else 'FAIL')
         t0 = time.time()
-        r = subprocess.run([os.path.join(VERIF, 'check'), m['prop'], '--tier', a.tier], cwd=VERIF, capture_output=True, text=True)
+        r = subprocess.run([os.path.join(VERIF, 'check'), m['prop'], '--tier', a.tier, '--no-evidence'], cwd=VERIF, capture_output=True, text=True, env=dict(os.environ, VERIF_REPO=REPO))
         dt = time.time() - t0
         viol = [l for l in r.stdout.splitlines() if l.startswith('VIOLATION')]
         why = [l for l in r.stdout.splitlines() if 'failing test' in l]
@@ -50,7 +61,6 @@ for m in muts:
     finally:
         open(path, 'w').write(src)
     # remove replays produced by mutation runs
-    subprocess.run(['rm', '-rf', os.path.join(VERIF, 'replays', 'found')])
 os.makedirs(os.path.join(VERIF, 'work'), exist_ok=True)
 with open(os.path.join(VERIF, 'work', 'mut-results.jsonl'), 'a') as f:
     for r in res: f.write(json.dumps(r) + '\n')
